@@ -491,7 +491,7 @@ func runC17(o *Out, rng *RNG, tier string, replay string) {
 						if rng.Chance(50) {
 							text = strings.Repeat(" ", rng.Intn(3)) + text + strings.Repeat("\t", rng.Intn(2))
 						}
-						if !strings.Contains(text+"\n"+m[:len(m)-1], "\n"+m) { // first terminator match is at the very end
+						if c17HeredocBodyOK(text, m) { // no line of the text is a terminator line
 							break
 						}
 					}
